@@ -15,6 +15,9 @@ import TlxVerif.Proofs.C01Copy
 import TlxVerif.Proofs.C01EraseE
 import TlxVerif.Proofs.C01EraseG
 import TlxVerif.Proofs.C01EraseH
+import TlxVerif.Proofs.C01Iter
+import TlxVerif.Proofs.C01InsPos
+import TlxVerif.Proofs.C01StdOrder
 namespace TlxVerif.C01
 
 variable {K V : Type}
@@ -141,6 +144,65 @@ theorem find_refines (p : Params K) (sw : StrictWeak p.lt) (t : Tree K V) (ht : 
 theorem exists_refines (p : Params K) (sw : StrictWeak p.lt) (t : Tree K V) (ht : TreeInv p t) (k : K) :
     existsKey p t k = some (presentOpt p k (t.toList[lbIdx p.lt k t.toList]?)) :=
   existsKey_spec p sw t ht k
+
+/-- `count(key)` = the number of entries equivalent to the key -/
+theorem count_refines (p : Params K) (pv : p.Valid) (sw : StrictWeak p.lt) (t : Tree K V) (ht : TreeInv p t) (k : K) :
+    count p t k = some (t.toList.filter (fun e => p.eqv k e.1)).length :=
+  count_spec p pv sw t ht k
+
+/-- the iterator returned by `insert` refers to the new entry (rank = lower bound of the key in the old
+sequence); for a rejected insert it refers to the equivalent entry that is already there -/
+theorem insert_position (p : Params K) (pv : p.Valid) (sw : StrictWeak p.lt) (t : Tree K V) (ht : TreeInv p t)
+    (k : K) (v : V) (res : InsResult K V) (hres : insert p t k v = some res) :
+    rankOf res.tree.leafChain (some res.pos) = lbIdx p.lt k t.toList :=
+  insert_pos p pv sw t ht k v res hres
+
+/-! ## iteration -/
+
+/-- forward iteration: `r` applications of `operator++` to `begin()` give an iterator whose `*it` is the
+`r`-th entry of the sequence; backward iteration: `r ≥ 1` applications of `operator--` to `end()` give
+the `r`-th entry from the back -/
+theorem iteration_refines (p : Params K) (pv : p.Valid) (t : Tree K V) (ht : TreeInv p t) :
+    (∀ r, r < t.toList.length →
+      deref t.leafChain (iterN (itInc t.leafChain) r (0, 0)) = t.toList[r]?) ∧
+    (∀ e, endPos t.leafChain = some e → ∀ r, 1 ≤ r → r ≤ t.toList.length →
+      deref t.leafChain (iterN (itDec t.leafChain) r e) = t.toList[t.toList.length - r]?) :=
+  ⟨fun r hr => iteration_fwd_spec p pv t ht r hr, fun e he r h1 h2 => iteration_bwd_spec p pv t ht e he r h1 h2⟩
+
+-- OPEN: reverse_iteration_refines — the same for `reverse_iterator::operator++/--` (`ritInc`/`ritDec`, whose
+--   `curr_slot` is one past the referenced slot) and for the converting constructors `toReverse`/`toForward`;
+--   modelled, compared with the implementation and with std::reverse_iterator / base() on every run.
+def reverse_iteration_refines_statement (p : Params K) : Prop :=
+  ∀ (t : Tree K V), TreeInv p t → ∀ e, endPos t.leafChain = some e → ∀ r, r < t.toList.length →
+    rderef t.leafChain (iterN (ritInc t.leafChain) r (toReverse t.leafChain e)) = t.toList[t.toList.length - 1 - r]?
+
+-- OPEN: bulk_load_refines — `bulkLoad p es` of a sorted range is defined, has entry sequence `es` and satisfies
+--   `TreeInv` (the `n / (parts - i)` distribution keeps every node at least half full: nonlinear arithmetic).
+def bulk_load_refines_statement (p : Params K) : Prop :=
+  ∀ (es : List (K × V)), SortedE p.lt es → ∃ t l, bulkLoad p es = some (t, l) ∧ t.toList = es ∧ TreeInv p t
+
+/-- **"up to the relative order of entries with equivalent keys"**: the abstract container refined by the
+tlx model (new entries before their equivalents, `Spec.runInserts` = `Spec.runInsertsLB`) and the std-like one
+(new entries behind their equivalents, `Spec.runInsertsStd`), driven by the same history from the same
+contents, stay ordered and are permutations of each other; unique-key containers accept/reject the same
+insertions -/
+theorem insertLB_vs_std (p : Params K) (sw : StrictWeak p.lt) (ops : List (K × V)) :
+    (Spec.runInserts (V := V) p [] ops).Perm (Spec.runInsertsStd p [] ops) ∧
+    SortedE p.lt (Spec.runInserts (V := V) p [] ops) ∧ SortedE p.lt (Spec.runInsertsStd (V := V) p [] ops) := by
+  have hsame : ∀ (ops l : List (K × V)), Spec.runInserts p l ops = Spec.runInsertsLB p l ops := by
+    intro ops
+    induction ops with
+    | nil => intro l; rfl
+    | cons op ops ih =>
+      intro l
+      obtain ⟨k, v⟩ := op
+      simp only [Spec.runInserts, Spec.runInsertsLB, Spec.insertLB]
+      have : (match l[lbIdx p.lt k l]? with | some e => p.eqv k e.1 | none => false) =
+          presentOpt p k (l[lbIdx p.lt k l]?) := by
+        cases l[lbIdx p.lt k l]? <;> rfl
+      rw [this, ih, ih]
+  rw [hsame]
+  exact lb_vs_std p sw ops [] [] (List.Perm.refl _) (by simp [SortedE]) (by simp [SortedE])
 
 /-! ## erase -/
 
